@@ -154,6 +154,20 @@ func handleSubStr(params internal.HandlerFuncParams) ([]byte, error) {
 		start, end = end, start
 	}
 
+	// Indices outside the value are clamped to its bounds.
+	if start < 0 {
+		start = 0
+	}
+	if start > len(value) {
+		start = len(value)
+	}
+	if end < 0 {
+		end = 0
+	}
+	if end > len(value) {
+		end = len(value)
+	}
+
 	str := value[start:end]
 
 	if reversed {
